@@ -197,6 +197,16 @@ pub fn main_authz(args: &[String]) -> anyhow::Result<()> {
                     let s = UserSession { username: Arc::new(format!("user{}", tok)), nickname: None, roles: roles.iter().map(|r| Arc::new(r.to_string())).collect(), namespace_privilege: None, extend_infos: Default::default(), refresh_time: rnacos::now_second_i32() as u32 };
                     put_cache(&app, CacheType::UserSession, tok, CacheValue::UserSession(Arc::new(s)), false).await?;
                 }
+                // "unknown role strings": besides "9", strings that LOOK like a role value without being one (a lenient
+                // comparison or a numeric parse would take them for a role); the credential "unknown" (and "visitor + unknown")
+                // of request n uses string n mod len
+                const UNKNOWN_ROLES: [&str; 8] = ["9", "00", "+1", "02", " 0", "1 ", "admin", "-0"];
+                for (i, u) in UNKNOWN_ROLES.iter().enumerate() {
+                    for (prefix, roles) in [("t-u", vec![*u]), ("t-vu", vec!["2", *u])] {
+                        let s = UserSession { username: Arc::new(format!("user{}{}", prefix, i)), nickname: None, roles: roles.iter().map(|r| Arc::new(r.to_string())).collect(), namespace_privilege: None, extend_infos: Default::default(), refresh_time: rnacos::now_second_i32() as u32 };
+                        put_cache(&app, CacheType::UserSession, &format!("{}-{}", prefix, i), CacheValue::UserSession(Arc::new(s)), false).await?;
+                    }
+                }
                 let s = UserSession { username: Arc::new("expired".to_string()), nickname: None, roles: vec![Arc::new("0".to_string())], namespace_privilege: None, extend_infos: Default::default(), refresh_time: 0 };
                 put_cache(&app, CacheType::UserSession, "t-expired", CacheValue::UserSession(Arc::new(s)), true).await?;
                 let svc = test::init_service(App::new().app_data(web::Data::new(app.clone())).app_data(web::Data::new(app.config_addr.clone())).app_data(web::Data::new(app.naming_addr.clone())).app_data(web::Data::new(app.bi_stream_manage.clone())).wrap(CheckLogin::new(app.clone())).configure(console_config)).await;
@@ -217,13 +227,17 @@ pub fn main_authz(args: &[String]) -> anyhow::Result<()> {
                         x => x.to_string(),
                     }
                 };
-                for r in reqs.iter() {
+                for (rn, r) in reqs.iter().enumerate() {
                     let mut dmap = serde_json::Map::new();
                     for t in r["tokens"].as_array().cloned().unwrap_or_default() {
                         let tname = t.as_str().unwrap();
                         let method = actix_web::http::Method::from_bytes(r["method"].as_str().unwrap().as_bytes())?;
                         let mut tr = test::TestRequest::default().method(method).uri(r["path"].as_str().unwrap());
-                        let tok = tokmap(tname);
+                        let tok = match tname {
+                            "unknown" => format!("t-u-{}", rn % 8),
+                            "visitor_unknown" => format!("t-vu-{}", rn % 8),
+                            _ => tokmap(tname),
+                        };
                         if !tok.is_empty() {
                             tr = tr.insert_header(("Token", tok));
                         }
